@@ -282,6 +282,13 @@ FORALLStatement * FORALLStatement::parse(Parser& p, Context& ctx)
     if (t->code != TOKEN_KEYWORD || t->text != KEYWORDS[STMT_IN])
       throw ParseError(EXC_PARSE_OTHER_S, "Keyword IN required for FORALL.", t);
     s->_exp = ParseExpression::expression(p, ctx);
+    {
+      /* the iterator takes the place of its variable while the loop runs: it
+       * cannot be the table that is walked (or one of its elements) */
+      const Symbol * vs = ctx.findSymbol(vname);
+      if (vs && s->_exp->symbolId() == vs->id())
+        throw ParseError(EXC_PARSE_OTHER_S, "The iterated table cannot be used as iterator variable.", t);
+    }
     t = p.pop();
     if (t->code == ')')
       throw ParseError(EXC_PARSE_MM_PARENTHESIS, t);
